@@ -55,3 +55,11 @@ package delegation
 //@ func (*Token).IsValidNow
 //@   requires t != nil
 //@   assigns [C20] nothing
+//@
+//@ // ---- C10: well-formedness ------------------------------------------------------------------------
+//@ pure func wfDlg(t *Token) bool = didDefined(t.issuer) && didDefined(t.audience) && len(t.nonce) >= 12
+//@
+//@ func (*Token).validate
+//@   requires t != nil
+//@   ensures [C10] wf: (result == nil) == wfDlg(t)
+//@   assigns [C20] nothing
